@@ -623,13 +623,13 @@ func ruleP11Precedence(p *Prog, r *Report) {
 		}
 		if expl {
 			sawExplicit = true
-			r.check(deref(ret.Results[0]) == ssa.Value(asc.Params[1]), rule, "ascertain:explicit", p.instrPos(ret), "an explicit base value is returned unchanged", "an explicit base value is not what ascertain returns")
+			r.check(deref(retResult(ret, 0)) == ssa.Value(asc.Params[1]), rule, "ascertain:explicit", p.instrPos(ret), "an explicit base value is returned unchanged", "an explicit base value is not what ascertain returns")
 			continue
 		}
 		// composite literal with value = tallyUp(default.Get())
 		sawTally = true
 		good := false
-		if u, ok := strip(ret.Results[0]).(*ssa.UnOp); ok && u.Op == token.MUL {
+		if u, ok := strip(retResult(ret, 0)).(*ssa.UnOp); ok && u.Op == token.MUL {
 			if a, ok := u.X.(*ssa.Alloc); ok {
 				for _, ref := range *a.Referrers() {
 					if fa, ok := ref.(*ssa.FieldAddr); ok && fieldName(fa) == "value" {
@@ -665,7 +665,7 @@ func ruleP11Precedence(p *Prog, r *Report) {
 			succ = b.Succs[1]
 		}
 		if len(succ.Preds) == 1 && rejectComplete(succ, func(ret *ssa.Return) string {
-			if deref(ret.Results[0]) != ssa.Value(asc.Params[1]) {
+			if deref(retResult(ret, 0)) != ssa.Value(asc.Params[1]) {
 				return "returns something else"
 			}
 			return ""
@@ -700,68 +700,110 @@ func ruleP11Precedence(p *Prog, r *Report) {
 				}
 			}
 		})
-		good := len(calls) == 1
-		if good {
-			c := calls[0]
-			// not executed when mode == 0
-			notZero := false
-			for _, g := range guardsOf(c.Block()) {
+		modeGuard := func(gs []Guard, k int64, pol bool) bool {
+			for _, g := range gs {
 				if bo, ok := g.Cond.(*ssa.BinOp); ok {
 					_, fld := fieldLoad(bo.X)
-					k, isK := constInt(bo.Y)
-					if fld == "mode" && isK && k == 0 && ((bo.Op == token.EQL && !g.Pol) || (bo.Op == token.NEQ && g.Pol)) {
-						notZero = true
+					kk, isK := constInt(bo.Y)
+					if fld == "mode" && isK && kk == k && ((bo.Op == token.EQL && g.Pol == pol) || (bo.Op == token.NEQ && g.Pol != pol)) {
+						return true
 					}
 				}
 			}
-			// argument: phi {autoStyle, r.Value when mode == 1}
-			argOK := false
-			if ph, ok := strip(c.Common().Args[0]).(*ssa.Phi); ok && len(ph.Edges) == 2 {
-				var sawAuto, sawVal bool
+			return false
+		}
+		good := len(calls) >= 1
+		sawValue, sawAuto := false, false
+		stops := map[*ssa.BasicBlock]bool{}
+		for _, c := range calls {
+			stops[c.Block()] = true
+			gs := guardsOf(c.Block())
+			// never executed when mode == 0
+			if !modeGuard(gs, 0, false) {
+				good = false
+			}
+			arg := strip(c.Common().Args[0])
+			if ph, ok := arg.(*ssa.Phi); ok && len(ph.Edges) == 2 {
+				// one call: phi {autoStyle, r.Value when mode == 1}
 				for i, e := range ph.Edges {
 					pb := ph.Block().Preds[i]
+					egs := append(guardsOf(pb), edgeGuard(pb, ph.Block())...)
 					if deref(e) == ssa.Value(ap.Params[1]) {
 						sawAuto = true
 					}
-					if _, fld := fieldLoad(e); fld == "Value" {
-						for _, g := range append(guardsOf(pb), edgeGuard(pb, ph.Block())...) {
-							if bo, ok := g.Cond.(*ssa.BinOp); ok && bo.Op == token.EQL && g.Pol {
-								_, f2 := fieldLoad(bo.X)
-								k, isK := constInt(bo.Y)
-								if f2 == "mode" && isK && k == 1 {
-									sawVal = true
-								}
-							}
-						}
+					if _, fld := fieldLoad(e); fld == "Value" && modeGuard(egs, 1, true) {
+						sawValue = true
 					}
 				}
-				argOK = sawAuto && sawVal
+				continue
 			}
+			// one call per case
+			if _, fld := fieldLoad(arg); fld == "Value" {
+				if modeGuard(gs, 1, true) {
+					sawValue = true
+				} else {
+					good = false
+				}
+				continue
+			}
+			if deref(arg) == ssa.Value(ap.Params[1]) {
+				if modeGuard(gs, 1, false) {
+					sawAuto = true
+				} else {
+					good = false
+				}
+				continue
+			}
+			good = false
+		}
+		good = good && sawValue && sawAuto
+		if len(calls) >= 1 {
 			// and it IS executed in every other case: a return that can be reached without passing
-			// the call is guarded by mode == 0 and nothing else
+			// a call is guarded by mode == 0 and nothing else
 			skipOK := true
-			bypass := reachableFrom(ap.Blocks[0], map[*ssa.BasicBlock]bool{c.Block(): true})
+			bypass := reachableFrom(ap.Blocks[0], stops)
 			for _, ret := range returnsOf(ap) {
-				if !bypass[ret.Block()] {
+				if !bypass[ret.Block()] || stops[ret.Block()] {
 					continue
 				}
+				// paths into this return that avoid every call: each such entry edge must carry mode == 0
+				okRet := false
 				gs := guardsOf(ret.Block())
-				one := len(gs) == 1
-				if one {
-					bo, ok := gs[0].Cond.(*ssa.BinOp)
-					one = ok
-					if ok {
-						_, fld := fieldLoad(bo.X)
-						k, isK := constInt(bo.Y)
-						one = fld == "mode" && isK && k == 0 && ((bo.Op == token.EQL && gs[0].Pol) || (bo.Op == token.NEQ && !gs[0].Pol))
+				if len(gs) == 1 && modeGuard(gs, 0, true) {
+					okRet = true
+				}
+				if !okRet {
+					// a join block (end of a switch): every predecessor that is reachable without a
+					// call must itself be guarded by mode == 0 only
+					okRet = true
+					nBy := 0
+					for _, pb := range ret.Block().Preds {
+						if !bypass[pb] || stops[pb] {
+							continue
+						}
+						nBy++
+						pgs := append(guardsOf(pb), edgeGuard(pb, ret.Block())...)
+						if !(modeGuard(pgs, 0, true)) {
+							okRet = false
+						}
+						for _, g := range pgs {
+							if bo, isBo := g.Cond.(*ssa.BinOp); isBo {
+								if _, fld := fieldLoad(bo.X); fld == "mode" {
+									continue
+								}
+							}
+							okRet = false
+						}
+					}
+					if nBy == 0 {
+						okRet = false
 					}
 				}
-				if !one {
+				if !okRet {
 					skipOK = false
 				}
 			}
-			r.check(skipOK, rule, "directive:apply:always", p.instrPos(c), "the reformat callback is skipped for the no-reformat directive only", "ReformatDirective.apply skips the reformatting in more cases than the no-reformat directive (e.g. an explicit format that equals the zero value: 12-hour clock, slash dates)")
-			good = notZero && argOK
+			r.check(skipOK, rule, "directive:apply:always", p.pos(ap.Pos()), "the reformat callback is skipped for the no-reformat directive only", "ReformatDirective.apply skips the reformatting in more cases than the no-reformat directive (e.g. an explicit format that equals the zero value: 12-hour clock, slash dates)")
 		}
 		r.check(good, rule, "directive:apply", p.pos(ap.Pos()), "no-reformat does nothing; explicit uses its own value; auto uses the elected style", "ReformatDirective.apply does not implement none / explicit / auto-style")
 	}
@@ -814,7 +856,7 @@ func ruleP11Precedence(p *Prog, r *Report) {
 					}
 				}
 			}
-			c, _ := callOf(ret.Results[0])
+			c, _ := callOf(retResult(ret, 0))
 			if explicit {
 				sawNo = true
 				r.check(c != nil && staticCallee(c) != nil && fnBase(staticCallee(c)) == "NoReformat", rule, m.meth+":explicit-arg", p.instrPos(ret), "an explicit --"+m.flag+" value is taken as is", "an explicit --"+m.flag+" value is reformatted")
@@ -823,7 +865,7 @@ func ruleP11Precedence(p *Prog, r *Report) {
 			sawDefault = true
 			// value is a cell: initial store AutoStyle, overwritten in a closure passed to config.<cfg>.Unwrap with ReformatExplicitly
 			good := false
-			if u, ok := strip(ret.Results[0]).(*ssa.UnOp); ok && u.Op == token.MUL {
+			if u, ok := strip(retResult(ret, 0)).(*ssa.UnOp); ok && u.Op == token.MUL {
 				if cell := cellOf(u.X); cell != nil {
 					var auto, expl bool
 					for _, s := range storesTo(cell) {
